@@ -132,19 +132,40 @@ Proof. split; [exact mine_blocks_as_found_refuted|exact mine_blocks_as_found_wra
 
 (* ---- eth_estimateGas ---- *)
 (* the bisection ends after at most 64 rounds (65 units of fuel = 64 rounds + the final test),
-   whatever the executions answer, for every configured gas limit up to 2^62; the estimate is
-   within the limit; it panics only if an execution does *)
+   whatever the executions answer, in either mode, for every configured gas limit that is a
+   u64; the estimate is within the limit; it panics only if an execution does *)
 Theorem C09_estimate_gas_terminates :
   forall (St : Type) (probe : St -> N -> St * res (option bool)) (Inv : St -> Prop) m limit st,
-    limit <= 2 ^ 62 ->
-    exists st' r, bisect probe 65 m GAS_PER_BYTE st 21000 limit 0 = Some (st', r)
+    limit <= U64MAX ->
+    exists st' r, bisect probe 65 REPAIRED m GAS_PER_BYTE st 21000 limit 0 = Some (st', r)
       /\ (forall g it, r = Ok (g, it) -> it <= 64 /\ g <= N.max 21000 limit)
       /\ (probe_no_panic probe Inv -> Inv st -> r <> Panic /\ Inv st').
 Proof.
   intros St probe Inv m limit st Hl.
-  apply (estimate_gas_terminates probe Inv m GAS_PER_BYTE limit st Hl). vm_compute. discriminate.
+  apply (estimate_gas_terminates probe Inv REPAIRED m GAS_PER_BYTE limit st Hl). left. reflexivity.
 Qed.
 Print Assumptions C09_estimate_gas_terminates.
+
+(* the form as found (`lower + GAS_PER_BYTE < upper`, `(lower + upper) / 2`): the same for
+   configured limits up to 2^62; beyond, the sums overflow (a configuration value, not a
+   request: EVM_CALL_GAS_LIMIT within 21000 of u64::MAX) *)
+Theorem C09_estimate_gas_as_found_terminates :
+  forall (St : Type) (probe : St -> N -> St * res (option bool)) (Inv : St -> Prop) m limit st,
+    limit <= 2 ^ 62 ->
+    exists st' r, bisect probe 65 AS_FOUND m GAS_PER_BYTE st 21000 limit 0 = Some (st', r)
+      /\ (forall g it, r = Ok (g, it) -> it <= 64 /\ g <= N.max 21000 limit)
+      /\ (probe_no_panic probe Inv -> Inv st -> r <> Panic /\ Inv st').
+Proof.
+  intros St probe Inv m limit st Hl.
+  apply (estimate_gas_terminates probe Inv AS_FOUND m GAS_PER_BYTE limit st).
+  - assert (P62 : 2 ^ 62 = 4611686018427387904) by (vm_compute; reflexivity). rewrite P62 in Hl.
+    rewrite U64MAX_val. lia.
+  - right. split; [exact Hl|]. vm_compute. discriminate.
+Qed.
+
+Theorem C09_estimate_gas_as_found_refuted :
+  bisect (fun (st : unit) (_ : N) => (st, Ok (Some true))) 65 AS_FOUND Checked 12000 tt 21000 U64MAX 0 = Some (tt, Panic).
+Proof. vm_compute. reflexivity. Qed.
 
 (* ---- the precompile front ends, after an arbitrary ABI-decode result ---- *)
 (* getLockedPkscript (F8): a panic is exactly the short-pkscript slice of the tree as found *)
@@ -226,7 +247,7 @@ Proof. exact (op_return_tx_id_no_panic GAS_PER_OP_RETURN_TX_ID). Qed.
    brc20_mine, brc20_initialise, eth_call, eth_callMany, eth_estimateGas, the transaction-
    carrying indexer calls), in either build mode, terminates without a panic and leaves the
    engine alive -- PROVIDED the libraries behind the oracles do not panic ([world_ok]: revm with
-   the precompiles inside, the store, finalise_block; the configured gas limit is at most 2^62)
+   the precompiles inside, the store, finalise_block; the configured gas limit is a u64)
    and the request is a request ([request_ok]: its strings are Strings; brc20_mine does not run
    the block number past u64::MAX when overflow checks are on). *)
 Theorem C09_engine_alive_after_any_request :
@@ -235,7 +256,7 @@ Theorem C09_engine_alive_after_any_request :
          (open_block : S -> bool) (read_by_number : S -> N -> res unit) (by_hash : S -> N -> res (option N))
          (json_b256 : list N -> option N) (finalise commit_exec bookkeeping : S -> N -> res S) (LIMIT : N)
          m e r,
-    world_ok exec latest_of next_of genesis_missing read_by_number by_hash finalise commit_exec bookkeeping LIMIT GAS_PER_BYTE ->
+    world_ok exec latest_of next_of genesis_missing read_by_number by_hash finalise commit_exec bookkeeping LIMIT ->
     live e -> request_ok next_of m e r ->
     let out := handle ej exec status with_gas latest_of next_of genesis_missing open_block read_by_number
                       by_hash json_b256 finalise commit_exec bookkeeping LIMIT GAS_PER_BYTE REPAIRED m e r in
@@ -252,7 +273,8 @@ Theorem C09_read_requests_leave_engine_unchanged :
          (open_block : S -> bool) (read_by_number : S -> N -> res unit) (by_hash : S -> N -> res (option N))
          (json_b256 : list N -> option N) (finalise commit_exec bookkeeping : S -> N -> res S) (LIMIT : N)
          fx m e r,
-    world_ok exec latest_of next_of genesis_missing read_by_number by_hash finalise commit_exec bookkeeping LIMIT GAS_PER_BYTE ->
+    fx_bisect_sub fx = true ->
+    world_ok exec latest_of next_of genesis_missing read_by_number by_hash finalise commit_exec bookkeeping LIMIT ->
     live e -> request_wf r = true ->
     match r with
     | RMine _ | RTx _ => True
@@ -296,7 +318,7 @@ Proof. vm_compute. repeat split; reflexivity. Qed.
 
 Example C09_nonvacuous_bisect :
   (* an execution that needs 53000 gas, gas limit 10^9: 17 rounds *)
-  bisect (fun (st : N) g => (st + 1, Ok (Some (53000 <=? g)))) 65 Checked 12000 0 21000 1000000000 0
+  bisect (fun (st : N) g => (st + 1, Ok (Some (53000 <=? g)))) 65 REPAIRED Checked 12000 0 21000 1000000000 0
   = Some (17, Ok (59146, 17)).
 Proof. vm_compute. reflexivity. Qed.
 
